@@ -18,7 +18,7 @@ import (
 // evaluated abstractly for all 8 assignments.
 
 func init() {
-	Register(&Rule{ID: "R-CACHE-1", Props: []string{"C20"}, Floor: 8,
+	Register(&Rule{ID: "R-CACHE-1", Props: []string{"C20", "C09"}, Floor: 8,
 		Doc:      "truth table of the reload guard of cacheViewFromFile over {isCached = result of the cache lookup, forUpdate = the bool parameter, cachedForUpdate = view.FileInfo.ForUpdate}: for each of the 8 assignments the call that re-reads the file (reaches loadViewFromFile / file.NewReader) is reachable from the entry — branch conditions built from the three inputs evaluated, all other conditions (error exits) taken both ways — exactly when ¬isCached ∨ (forUpdate ∧ ¬cachedForUpdate)",
 		Controls: []string{"CtlReloadWheneverForUpdate"},
 		Run:      ruleCache1})
